@@ -40,7 +40,11 @@ def detect(seed):
         mode = '--3way'
         if rc != 0:
             return {'seed': seed, 'applies': False, 'why': out[-400:]}
-    sh(f'git -C {R} apply {mode} {seed}/patch.diff')
+    rc, out = sh(f'git -C {R} apply {mode} {seed}/patch.diff')
+    unmerged = sh(f'git -C {R} diff --name-only --diff-filter=U')[1].strip()
+    if rc != 0 or unmerged:
+        sh(f'git -C {R} reset -q --hard')
+        return {'seed': seed, 'applies': False, 'why': 'conflicts with the current tree: ' + (unmerged or out[-300:])}
     try:
         rc, out = sh(f'bin/sdbcheck -property all -no-evidence -verif /verif -repo {R}', cwd='/verif', timeout=1200)
     finally:
